@@ -26,8 +26,9 @@ GEN = [
     ('C14GenTet', lambda: T.tr_finder('tet')),
     ('C14GenSplits', T.tr_splits),
     ('C14GenProbes', T.tr_probes),
+    ('C14GenLine', T.tr_line),
 ]
-DYN_LEVELS = [['C14_TieGeom', 'C14_TieSplit', 'C14_TieProbes'], ['C14_TieFinder']]
+DYN_LEVELS = [['C14_TieGeom', 'C14_TieSplit', 'C14_TieProbes', 'C14_TieLine'], ['C14_TieFinder']]
 
 
 def build(ctx):
@@ -73,10 +74,12 @@ def run(ctx):
     ctx.prove()
     ctx.log(f'build+prove {time.time() - t:.1f}s')
     batch = CorrBatch(ctx)
-    O.correspond(ctx, facts, ok, batch)
-    batch.run()
-    O.search_finders(ctx)
-    O.search_probes(ctx)
+    import traceback
+    for stage in (lambda: O.correspond(ctx, facts, ok, batch), batch.run, lambda: O.search_finders(ctx), lambda: O.search_probes(ctx)):
+        try:
+            stage()
+        except Exception as e:      # noqa: BLE001 - a crash of one stage must not hide what the others find
+            ctx.broke('harness', type(e).__name__, traceback.format_exc())
 
 
 def replay(ctx, data):
